@@ -63,6 +63,7 @@ fn new_tr<'a>(idx: &'a Index, reg: &'a Registry, cur: &'a FnEntry) -> Tr<'a> {
         mut_ref_params: Vec::new(),
         ptr_alias: HashMap::new(),
         pattern_generics: Vec::new(),
+        type_subst: HashMap::new(),
     }
 }
 
@@ -206,7 +207,11 @@ fn translate_fn(idx: &Index, reg: &Registry, t: &Target, texts: &BTreeMap<String
     }
     let fi = cands[0];
     let f = &idx.fns[fi];
-    let rf = reg.fns.get(&fi).ok_or("internal: target not registered")?;
+    let rf_owned: RegFn = match reg.fns.get(&fi) {
+        Some(r) if t.arm.is_none() => r.clone(),
+        _ => RegFn { idx: fi, lean: t.lean_name.clone(), fuel: false, is_extern: false },
+    };
+    let rf = &rf_owned;
     let mut tr = new_tr(idx, reg, f);
     tr.generics = all_type_params(f);
     tr.const_generics = all_const_params(f);
@@ -220,6 +225,14 @@ fn translate_fn(idx: &Index, reg: &Registry, t: &Target, texts: &BTreeMap<String
         tr.const_generics.retain(|g| g != "N");
     }
 
+    if let (Some(_), Some(ty)) = (&t.arm, &t.arm_ty) {
+        let parsed: syn::Type = syn::parse_str(ty).map_err(|e| format!("ty= : {}", e))?;
+        let conv = tr.conv_ty(&parsed);
+        for g in tr.generics.clone() {
+            tr.type_subst.insert(g, conv.clone());
+        }
+        tr.generics.clear();
+    }
     // parameters
     let mut params: Vec<(String, Ty)> = Vec::new();
     for inp in &f.sig.inputs {
@@ -258,7 +271,33 @@ fn translate_fn(idx: &Index, reg: &Registry, t: &Target, texts: &BTreeMap<String
     };
     tr.ret_ty = ret.clone();
     tr.lean_name = t.lean_name.clone();
-    let (body, _ty, _div) = tr.block_lines(&f.block.stmts, &[], true, Some(&ret))?;
+    // witness-arm target: only the selected arm of `match HasTypeWitness::WITNESS { … }`
+    let arm_block: Option<Block> = match &t.arm {
+        None => None,
+        Some(v) => {
+            let m = match f.block.stmts.last() {
+                Some(Stmt::Expr(Expr::Match(m), None)) => m,
+                _ => return Err("arm= target: the function body is not a single `match`".into()),
+            };
+            let arm = m
+                .arms
+                .iter()
+                .find(|a| match &a.pat {
+                    Pat::Struct(ps) => ps.path.segments.last().map(|s| s.ident == v.as_str()).unwrap_or(false),
+                    _ => false,
+                })
+                .ok_or_else(|| format!("no arm `{}` in the witness match", v))?;
+            match &*arm.body {
+                Expr::Block(b) => Some(b.block.clone()),
+                other => Some(Block { brace_token: Default::default(), stmts: vec![Stmt::Expr(other.clone(), None)] }),
+            }
+        }
+    };
+    let stmts: &Vec<Stmt> = match &arm_block {
+        Some(b) => &b.stmts,
+        None => &f.block.stmts,
+    };
+    let (body, _ty, _div) = tr.block_lines(stmts, &[], true, Some(&ret))?;
 
     let mut sig = String::new();
     for g in &tr.generics {
